@@ -1,11 +1,12 @@
-(* RuneSet.includes: page-level inclusion, decided by the merge loop; soundness w.r.t. the sets of members for all
-   well-formed sets, completeness when the included set has no all-zero page. *)
+(* RuneSet.includes (after the fix that ignores the all-zero pages left behind by Delete): page-level inclusion,
+   decided by the merge loop; soundness and completeness w.r.t. the sets of members for all well-formed sets. *)
 From TV Require Import Lib.GoNum Lib.Res Lib.Bytes Model.RuneSet Spec.RuneSet Proofs.RuneSet.
 From Coq Require Import ZifyBool.
 
-(* every page of b has a page of a with the same ref whose bits include it *)
+(* every page of b is all-zero or has a page of a with the same ref whose bits include it *)
 Definition pages_included (a b : RuneSet) (ai bi : Z) : Prop :=
   forall j, bi <= j < zlen b ->
+    set_is_zero (p_set (znth dpage b j)) = true \/
     exists i, ai <= i < zlen a /\ p_ref (znth dpage a i) = p_ref (znth dpage b j)
               /\ pageSet_includes (p_set (znth dpage a i)) (p_set (znth dpage b j)) = true.
 
@@ -23,6 +24,30 @@ Proof.
   - pose proof (sorted_idx lo rs j i S ltac:(lia) ltac:(lia) ltac:(lia)). lia.
 Qed.
 
+(* forallb over a tail, read by index *)
+Lemma forallb_zskipn {A} (d : A) f l k : 0 <= k ->
+  (forallb f (zskipn k l) = true <-> forall j, k <= j < zlen l -> f (znth d l j) = true).
+Proof.
+  intros Hk. rewrite forallb_forall. unfold zskipn, znth, zlen. split.
+  - intros H j Hj. destruct (j <? 0) eqn:E; [lia|]. apply H.
+    replace (Z.to_nat j) with (Z.to_nat k + Z.to_nat (j - k))%nat by lia.
+    rewrite <- nth_skipn_add. apply nth_In. rewrite skipn_length. lia.
+  - intros H x Hx. apply (In_nth _ _ d) in Hx. destruct Hx as [n [Hn <-]].
+    rewrite skipn_length in Hn. rewrite nth_skipn_add.
+    specialize (H (k + Z.of_nat n) ltac:(lia)).
+    destruct (k + Z.of_nat n <? 0) eqn:E; [lia|].
+    replace (Z.to_nat (k + Z.of_nat n)) with (Z.to_nat k + n)%nat in H by lia. exact H.
+Qed.
+
+(* every set includes the all-zero set *)
+Lemma pageSet_includes_zero sa sb : set_is_zero sb = true -> pageSet_includes sa sb = true.
+Proof.
+  unfold set_is_zero, pageSet_includes. revert sa.
+  induction sb as [|w t IH]; intros [|wa ta] H; simpl; auto.
+  simpl in H. apply andb_true_iff in H as [H1 H2]. apply andb_true_iff. split; [|apply IH; auto].
+  assert (w = 0) by lia. subst. reflexivity.
+Qed.
+
 Lemma includes_loop_spec a b la lb : sorted_from la a -> sorted_from lb b ->
   forall fuel bi ai,
     0 <= bi <= zlen b -> 0 <= ai <= zlen a ->
@@ -32,10 +57,10 @@ Lemma includes_loop_spec a b la lb : sorted_from la a -> sorted_from lb b ->
 Proof.
   intros Sa Sb. induction fuel; intros bi ai Hbi Hai Hf H1; [lia|].
   cbn [includes_loop]. destruct ((bi <? zlen b) && (ai <? zlen a)) eqn:G.
-  2:{ eexists; split; [reflexivity|]. split.
-      - intros E j Hj. lia.
-      - intros R. destruct (Z_lt_dec bi (zlen b)); [|lia].
-        destruct (R bi ltac:(lia)) as [i [Hi _]]. lia. }
+  2:{ eexists; split; [reflexivity|].
+      rewrite (forallb_zskipn dpage (fun p => set_is_zero (p_set p)) b bi) by lia. split.
+      - intros E j Hj. left. apply E; auto.
+      - intros R j Hj. destruct (R j Hj) as [Z0|[i [Hi _]]]; auto. lia. }
   assert (Gb : bi < zlen b) by lia. assert (Ga : ai < zlen a) by lia. clear G.
   set (rb := p_ref (znth dpage b bi)). set (ra := p_ref (znth dpage a ai)).
   destruct (rb =? ra) eqn:E1.
@@ -47,40 +72,49 @@ Proof.
         pose proof (sorted_idx_le la a i ai Sa ltac:(lia) ltac:(lia) ltac:(lia)). fold rb in H. fold ra in H0. lia. }
       exists v. split; auto. rewrite Hv. split.
       * intros R j Hj. destruct (Z.eq_dec j bi) as [->|].
-        -- exists ai. repeat split; auto; try lia.
-        -- destruct (R j ltac:(lia)) as [i [Hi Q]]. exists i. split; [lia|auto].
-      * intros R j Hj. destruct (R j ltac:(lia)) as [i [Hi [Q1 Q2]]]. exists i. split; auto.
+        -- right. exists ai. repeat split; auto; try lia.
+        -- destruct (R j ltac:(lia)) as [Z0|[i [Hi Q]]]; [left; auto|]. right. exists i. split; [lia|auto].
+      * intros R j Hj. destruct (R j ltac:(lia)) as [Z0|[i [Hi [Q1 Q2]]]]; [left; auto|]. right. exists i. split; auto.
         destruct (Z.eq_dec i ai) as [->|]; [|lia].
         pose proof (sorted_idx lb b bi j Sb ltac:(lia) ltac:(lia) ltac:(lia)). fold rb in H. fold ra in Q1. lia.
     + eexists; split; [reflexivity|]. split; [discriminate|].
-      intros R. destruct (R bi ltac:(lia)) as [i [Hi [Q1 Q2]]].
-      assert (i = ai) by (apply (sorted_idx_inj la a i ai Sa); try lia; fold rb in Q1; fold ra; lia). subst i. congruence.
+      intros R. destruct (R bi ltac:(lia)) as [Z0|[i [Hi [Q1 Q2]]]].
+      * rewrite pageSet_includes_zero in E2 by auto. discriminate.
+      * assert (i = ai) by (apply (sorted_idx_inj la a i ai Sa); try lia; fold rb in Q1; fold ra; lia). subst i. congruence.
   - destruct (rb <? ra) eqn:E2.
-    + eexists; split; [reflexivity|]. split; [discriminate|].
-      intros R. destruct (R bi ltac:(lia)) as [i [Hi [Q1 Q2]]].
-      pose proof (sorted_idx_le la a ai i Sa ltac:(lia) ltac:(lia) ltac:(lia)). fold rb in Q1. fold ra in H. lia.
+    + destruct (set_is_zero (p_set (znth dpage b bi))) eqn:E3.
+      * destruct (IHfuel (bi + 1) ai ltac:(lia) ltac:(lia) ltac:(lia)) as [v [Ev Hv]].
+        { intros i j Hi Hj. apply H1; lia. }
+        exists v. split; auto. rewrite Hv. split.
+        -- intros R j Hj. destruct (Z.eq_dec j bi) as [->|]; [left; auto|]. apply R. lia.
+        -- intros R j Hj. apply R. lia.
+      * eexists; split; [reflexivity|]. split; [discriminate|].
+        intros R. destruct (R bi ltac:(lia)) as [Z0|[i [Hi [Q1 Q2]]]]; [congruence|].
+        pose proof (sorted_idx_le la a ai i Sa ltac:(lia) ltac:(lia) ltac:(lia)). fold rb in Q1. fold ra in H. lia.
     + assert (Lt : ra < rb) by lia.
       destruct (findPageFrom_spec a rb la (ai + 1) Sa ltac:(lia)) as [v [Ev P]].
       { intros i Hi. pose proof (sorted_idx_le la a i ai Sa ltac:(lia) ltac:(lia) ltac:(lia)). fold ra in H. lia. }
-      rewrite Ev. cbn [bind]. destruct (v <? 0) eqn:E3.
-      * eexists; split; [reflexivity|]. split; [discriminate|].
-        intros R. destruct (R bi ltac:(lia)) as [i [Hi [Q1 Q2]]]. fold rb in Q1.
-        destruct P as [[P1 P2]|[_ [P1 [P2 P3]]]]; [lia|].
-        destruct (Z_lt_dec i (- v - 1)); [specialize (P2 i ltac:(lia)); lia|specialize (P3 i ltac:(lia)); lia].
-      * destruct P as [[P1 P2]|[P0 _]]; [|lia].
-        assert (Hv : ai < v).
-        { destruct (Z_lt_dec ai v); auto.
-          pose proof (sorted_idx_le la a v ai Sa ltac:(lia) ltac:(lia) ltac:(lia)). fold ra in H. lia. }
-        destruct (IHfuel bi v ltac:(lia) ltac:(lia) ltac:(lia)) as [w [Ew Hw]].
-        { intros i j Hi Hj.
-          pose proof (sorted_idx la a i v Sa ltac:(lia) ltac:(lia) ltac:(lia)).
-          pose proof (sorted_idx_le lb b bi j Sb ltac:(lia) ltac:(lia) ltac:(lia)). fold rb in H0. lia. }
-        exists w. split; auto. rewrite Hw. split.
-        -- intros R j Hj. destruct (R j Hj) as [i [Hi Q]]. exists i. split; [lia|auto].
-        -- intros R j Hj. destruct (R j Hj) as [i [Hi [Q1 Q2]]]. exists i. split; auto.
-           destruct (Z_lt_dec i v); [|lia].
-           pose proof (sorted_idx la a i v Sa ltac:(lia) ltac:(lia) ltac:(lia)).
-           pose proof (sorted_idx_le lb b bi j Sb ltac:(lia) ltac:(lia) ltac:(lia)). fold rb in H0. lia.
+      rewrite Ev. cbn [bind]. set (ai' := if v <? 0 then - v - 1 else v).
+      (* the walk resumes at ai' > ai, and every page of a before ai' has a ref below rb *)
+      assert (A' : ai < ai' <= zlen a /\ forall i, 0 <= i < ai' -> p_ref (znth dpage a i) < rb).
+      { unfold ai'. destruct (v <? 0) eqn:E3.
+        - destruct P as [[P1 P2]|[_ [P1 [P2 P3]]]]; [lia|]. split; auto. split; [|lia].
+          destruct (Z_lt_dec ai (- v - 1)); auto. specialize (P3 ai ltac:(lia)). fold ra in P3. lia.
+        - destruct P as [[P1 P2]|[P0 _]]; [|lia].
+          assert (Hv : ai < v).
+          { destruct (Z_lt_dec ai v); auto.
+            pose proof (sorted_idx_le la a v ai Sa ltac:(lia) ltac:(lia) ltac:(lia)). fold ra in H. lia. }
+          split; [lia|]. intros i Hi.
+          pose proof (sorted_idx la a i v Sa ltac:(lia) ltac:(lia) ltac:(lia)). lia. }
+      destruct A' as [A1 A2]. clearbody ai'.
+      destruct (IHfuel bi ai' ltac:(lia) ltac:(lia) ltac:(lia)) as [w [Ew Hw]].
+      { intros i j Hi Hj. specialize (A2 i Hi).
+        pose proof (sorted_idx_le lb b bi j Sb ltac:(lia) ltac:(lia) ltac:(lia)). fold rb in H. lia. }
+      exists w. split; auto. rewrite Hw. split.
+      * intros R j Hj. destruct (R j Hj) as [Z0|[i [Hi Q]]]; [left; auto|]. right. exists i. split; [lia|auto].
+      * intros R j Hj. destruct (R j Hj) as [Z0|[i [Hi [Q1 Q2]]]]; [left; auto|]. right. exists i. split; auto.
+        destruct (Z_lt_dec i ai'); [|lia]. specialize (A2 i ltac:(lia)).
+        pose proof (sorted_idx_le lb b bi j Sb ltac:(lia) ltac:(lia) ltac:(lia)). fold rb in H. lia.
 Qed.
 
 Lemma includes_pages a b : inv a -> inv b ->
@@ -146,9 +180,52 @@ Proof.
   rewrite Nat2Z.id. auto.
 Qed.
 
+(* ---- all-zero pages ---- *)
+Lemma set_is_zero_znth s k : set_is_zero s = true -> znth 0 s k = 0.
+Proof.
+  unfold set_is_zero, znth. intros H. destruct (k <? 0); auto. generalize (Z.to_nat k) as n.
+  induction s as [|w t IH]; intros [|n]; simpl; auto; simpl in H; apply andb_true_iff in H as [H1 H2];
+    [lia|apply IH; auto].
+Qed.
+Lemma set_is_zero_bit s x : set_is_zero s = true -> set_bit s x = false.
+Proof. intros H. unfold set_bit. rewrite set_is_zero_znth by auto. apply Z.bits_0. Qed.
+
+Lemma nonzero_word_bit w : word_ok w -> w <> 0 -> exists jj, 0 <= jj < 32 /\ Z.testbit w jj = true.
+Proof.
+  unfold word_ok. intros Hw Hn. exists (Z.log2 w). split.
+  - split; [apply Z.log2_nonneg|apply Z.log2_lt_pow2; lia].
+  - apply Z.bit_log2. lia.
+Qed.
+Lemma nonzero_set_bit s : Forall word_ok s -> set_is_zero s = false ->
+  exists k jj, 0 <= k < zlen s /\ 0 <= jj < 32 /\ Z.testbit (znth 0 s k) jj = true.
+Proof.
+  unfold set_is_zero. induction 1 as [|w t Hw Ht IH]; simpl; [discriminate|].
+  destruct (w =? 0) eqn:E; simpl.
+  - intros H. destruct (IH H) as [k [jj [Hk [Hj T]]]]. exists (k + 1), jj. rewrite zlen_cons.
+    split; [lia|]. split; auto.
+    unfold znth in *. destruct (k <? 0) eqn:E1; [lia|]. destruct (k + 1 <? 0) eqn:E2; [lia|].
+    replace (Z.to_nat (k + 1)) with (S (Z.to_nat k)) by lia. exact T.
+  - intros _. destruct (nonzero_word_bit w Hw ltac:(lia)) as [jj [Hj T]]. exists 0, jj.
+    rewrite zlen_cons. pose proof (zlen_nonneg t). repeat split; auto; lia.
+Qed.
+
 Definition subset_of (a b : RuneSet) : Prop := forall x, rune_ok x -> mem b x = true -> mem a x = true.
 (* no page of b is empty: each holds at least one rune *)
 Definition page_nonempty (p : runePage) : Prop := exists x, rune_ok x /\ rune_ref x = p_ref p /\ set_bit (p_set p) x = true.
+
+(* a well-formed page that is not all-zero holds a rune *)
+Lemma nonzero_page_nonempty q : 0 <= p_ref q -> page_ok q -> set_is_zero (p_set q) = false -> page_nonempty q.
+Proof.
+  intros Pos [Pb [Lb Wb]] NZ. destruct (nonzero_set_bit _ Wb NZ) as [k [jj [Hk [Hjj T]]]].
+  assert (Hk8 : 0 <= k < 8) by (unfold zlen in Hk; lia).
+  set (x := p_ref q * 256 + k * 32 + jj). exists x.
+  assert (Hx : rune_ok x) by (unfold rune_ok, x; lia).
+  assert (X1 : rune_ref x = p_ref q).
+  { rewrite rune_ref_eq by auto. unfold x. Z.div_mod_to_equations. lia. }
+  assert (X2 : word_idx x = k) by (rewrite word_idx_eq; unfold x; Z.div_mod_to_equations; lia).
+  assert (X3 : bit_idx x = jj) by (rewrite bit_idx_eq; unfold x; Z.div_mod_to_equations; lia).
+  split; auto. split; auto. unfold set_bit. rewrite X2, X3. exact T.
+Qed.
 
 Lemma pages_included_sound a b : inv a -> inv b -> pages_included a b 0 0 -> subset_of a b.
 Proof.
@@ -156,7 +233,8 @@ Proof.
   destruct (get b (rune_ref x)) as [sb|] eqn:Gb; [|discriminate].
   destruct (get_In _ _ _ Gb) as [q [Hq [Eq1 Eq2]]].
   destruct (In_znth _ _ Hq) as [j [Hj Ej]].
-  destruct (R j ltac:(lia)) as [i [Hi [Q1 Q2]]]. rewrite Ej in *.
+  destruct (R j ltac:(lia)) as [Z0|[i [Hi [Q1 Q2]]]]; rewrite Ej in *.
+  { rewrite Eq2 in Z0. rewrite (set_is_zero_bit sb x Z0) in M. discriminate. }
   pose proof (znth_In dpage a i ltac:(lia)) as Hp. set (p := znth dpage a i) in *.
   rewrite <- Eq1, <- Q1. rewrite (In_get 0 a p Sa Hp).
   rewrite Forall_forall in Fa, Fb. destruct (Fa p Hp) as [_ [La Wa]]. destruct (Fb q Hq) as [_ [Lb Wb]].
@@ -164,20 +242,22 @@ Proof.
   unfold set_bit in *. apply B; auto; [apply word_idx_range|apply bit_idx_range|]. rewrite Eq2. exact M.
 Qed.
 
-Lemma pages_included_complete a b : inv a -> inv b -> Forall page_nonempty b -> subset_of a b -> pages_included a b 0 0.
+Lemma pages_included_complete a b : inv a -> inv b -> subset_of a b -> pages_included a b 0 0.
 Proof.
-  intros [Sa Fa] [Sb Fb] N Sub j Hj.
+  intros [Sa Fa] [Sb Fb] Sub j Hj.
   pose proof (znth_In dpage b j ltac:(lia)) as Hq. set (q := znth dpage b j) in *.
-  rewrite Forall_forall in N. destruct (N q Hq) as [x0 [Hx0 [Rx0 Bx0]]].
+  destruct (set_is_zero (p_set q)) eqn:NZ; [left; reflexivity|]. right.
+  pose proof (sorted_from_all _ _ Sb) as Pos. rewrite Forall_forall in Pos. specialize (Pos q Hq). simpl in Pos.
+  rewrite Forall_forall in Fa, Fb.
+  destruct (nonzero_page_nonempty q Pos (Fb q Hq) NZ) as [x0 [Hx0 [Rx0 Bx0]]].
   assert (M0 : mem b x0 = true) by (unfold mem; rewrite Rx0, (In_get 0 b q Sb Hq); auto).
   pose proof (Sub x0 Hx0 M0) as M1. unfold mem in M1.
   destruct (get a (rune_ref x0)) as [sa|] eqn:Ga; [|discriminate].
   destruct (get_In _ _ _ Ga) as [p [Hp [Ep1 Ep2]]].
   destruct (In_znth _ _ Hp) as [i [Hi Ei]]. exists i. split; [lia|]. rewrite Ei. split; [lia|].
-  rewrite Forall_forall in Fa, Fb. destruct (Fa p Hp) as [Pa [La Wa]]. destruct (Fb q Hq) as [Pb [Lb Wb]].
+  destruct (Fa p Hp) as [Pa [La Wa]]. destruct (Fb q Hq) as [Pb [Lb Wb]].
   apply (pageSet_includes_bits _ _ La Lb Wa Wb). intros k jj Hk Hjj T.
   (* the rune of page q, word k, bit jj *)
-  pose proof (sorted_from_all _ _ Sb) as Pos. rewrite Forall_forall in Pos. specialize (Pos q Hq). simpl in Pos.
   set (x := p_ref q * 256 + k * 32 + jj).
   assert (Hx : rune_ok x) by (unfold rune_ok, x; lia).
   assert (X1 : rune_ref x = p_ref q).
@@ -190,16 +270,21 @@ Proof.
 Qed.
 
 (* the theorems exported to Props *)
+Lemma includes_total a b : inv a -> inv b -> exists v, rsIncludes a b = Ok v.
+Proof. intros Ia Ib. destruct (includes_pages a b Ia Ib) as [v [E _]]. exists v. exact E. Qed.
+Lemma includes_iff a b : inv a -> inv b -> (rsIncludes a b = Ok true <-> subset_of a b).
+Proof.
+  intros Ia Ib. destruct (includes_pages a b Ia Ib) as [v [E H]]. rewrite E. split.
+  - intros [= ->]. apply pages_included_sound; auto. apply H; auto.
+  - intros S. f_equal. apply H. apply pages_included_complete; auto.
+Qed.
 Lemma includes_total_sound a b : inv a -> inv b ->
   exists v, rsIncludes a b = Ok v /\ (v = true -> subset_of a b).
 Proof.
   intros Ia Ib. destruct (includes_pages a b Ia Ib) as [v [E H]]. exists v. split; auto.
   intros T. apply pages_included_sound; auto. apply H; auto.
 Qed.
+(* kept for Props/C11.v: the non-emptiness hypothesis is no longer needed *)
 Lemma includes_iff_nonempty a b : inv a -> inv b -> Forall page_nonempty b ->
   (rsIncludes a b = Ok true <-> subset_of a b).
-Proof.
-  intros Ia Ib N. destruct (includes_pages a b Ia Ib) as [v [E H]]. rewrite E. split.
-  - intros [= ->]. apply pages_included_sound; auto. apply H; auto.
-  - intros S. f_equal. apply H. apply pages_included_complete; auto.
-Qed.
+Proof. intros Ia Ib _. apply includes_iff; auto. Qed.
